@@ -145,7 +145,18 @@ def word_at(fname, addr, nbytes, endian, signed=False):
     if isinstance(addr, int):
         _note_concrete(en, fname, addr, nbytes, endian)
     full = _ext(e, bits, signed)
-    b = getattr(en, "bounds", {}).get(full.get_id())
+    bounds = getattr(en, "bounds", None)
+    b = None
+    if bounds:
+        b = bounds.get(full.get_id())
+        if b is None and not isinstance(addr, int):
+            # the same location may be spelled differently (fsize - 1024 vs fsize + (-1024)): compare simplified
+            sf = z3.simplify(full)
+            for (t, lo_, hi_) in list(bounds.values()):
+                if z3.simplify(t).eq(sf):
+                    b = (full, lo_, hi_)
+                    bounds[full.get_id()] = b
+                    break
     if b is not None:
         lo, hi = b[1], b[2]
         if lo == hi:
@@ -153,17 +164,23 @@ def word_at(fname, addr, nbytes, endian, signed=False):
     return SymInt(full, ei, lo, hi)
 
 
+def _infl_uf(fname, wbits):
+    return _uf(f"INF_{fname}_{wbits}".replace("-", "m"), 3, 8)
+
+
 def infl_term(key, idx_bv):
     fname, off, ln, wbits, maxlen = key
-    f, _ = _uf(f"INF_{fname}_{wbits}".replace("-", "m"), 4, 8)
-    return f(parts(off)[0], parts(ln)[0], parts(maxlen)[0], idx_bv)
+    f, _ = _infl_uf(fname, wbits)
+    return f(parts(off)[0], parts(ln)[0], idx_bv)
 
 
 def infl_byte(key, idx):
+    """byte idx of inflating file range [off, off+ln) with window bits wbits. The output cap is not part of the
+    identity: a well-formed stream inflates to the same bytes whatever cap (>= its length) the caller passes."""
     fname, off, ln, wbits, maxlen = key
-    f, g = _uf(f"INF_{fname}_{wbits}".replace("-", "m"), 4, 8)
-    e = f(parts(off)[0], parts(ln)[0], parts(maxlen)[0], parts(idx)[0])
-    ei = g(parts(off)[1], parts(ln)[1], parts(maxlen)[1], parts(idx)[1])
+    f, g = _infl_uf(fname, wbits)
+    e = f(parts(off)[0], parts(ln)[0], parts(idx)[0])
+    ei = g(parts(off)[1], parts(ln)[1], parts(idx)[1])
     eng()._add_int(z3.And(ei >= 0, ei <= 255))
     return SymInt(_ext(e, 8, False), ei, 0, 255)
 
